@@ -266,6 +266,32 @@ def _explore(ctx, keys):
         for t in sorted(pts):
             if MINI <= t <= MAXI:
                 ops.append(f"zone.get {sid} {t}")
+    # (b2) the zone behind the cache, asked directly: the cached zone only ever asks it at the starts of its 32-day
+    # periods and at transitions, so what it answers anywhere else is never seen through the public object
+    H = 3600 * 10**9
+    for sid, rid, z in zs:
+        inner = Z.unwrap(z)
+        if inner is z:
+            continue
+        usid = "u~" + sid
+        zmap[usid] = inner
+        ops.append(Z.zone_def_line(usid, z))
+        periods, tail = Z.zone_data(z)
+        pts = {MINI, MINI + 1, 0}
+        for k in list(range(0, 30)) + [36, 48, 24 * 31, 24 * 366]:
+            pts.update([MAXI - k * H, MAXI - k * H - 1, MINI + k * H])
+        bs = [Z.inst_ns(p._raw_end) for p in periods if MINI <= Z.inst_ns(p._raw_end) <= MAXI]
+        for b in (bs if ctx.thorough else rng.sample(bs, min(len(bs), 6))):
+            d = (b // NPD) * NPD
+            pts.update([b - 1, b, b + 1, d, d + 1, d + NPD - 1, d - 1, b - H, b + H])
+        if tail is not None:
+            for y in [2038, 9998, 9999] + [rng.randint(2038, 9999) for _ in range(2)]:
+                pts.update(year_ns(y) + k * 30 * NPD + rng.randint(0, NPD) for k in range(12))
+        for _ in range(ctx.scale(4, 100)):
+            pts.add(rng.randint(MINI, MAXI))
+        ops += [f"zone.get {usid} {t}" for t in sorted(pts) if MINI <= t <= MAXI]
+        if tail is not None and (ctx.thorough or rng.random() < 0.2):
+            ops.append(f"zone.walk {usid} {year_ns(9997)} {MAXI + 1} 100")
     # (c) walks: whole precalculated part + tail through 2100 (quick) / to the end of time (thorough)
     for sid, rid, z in zs:
         stop = MAXI + 1 if ctx.thorough else year_ns(2101)
